@@ -30,6 +30,11 @@ WORK_CAP = 20_000_000
 WALL_BACKSTOP_S = 150.0
 
 
+import re as _re
+
+SENTINEL_RE = _re.compile(r"Q7(.*?)Q8", _re.S)
+
+
 def innermost_repo_frame(exc):
     tb = traceback.extract_tb(exc.__traceback__)
     for fr in reversed(tb):
@@ -48,7 +53,7 @@ class C17(RailsProp):
             "distinct = distinct (mode, task at the position, hostile text name)")
     expected_probes = ["hostile_at_intent_call", "hostile_at_next_steps_call", "hostile_at_bot_message_call", "hostile_at_v2_value_generation", "template_text_survived_literally"]
     exhaustive_parts = ["every LLM call position of every sampled conversation", "the whole hostile corpus per position in the thorough tier"]
-    quick_runs = 28
+    quick_runs = 24
     thorough_runs = 1500
     chunk = 1
     run_timeout_s = 900.0
@@ -79,7 +84,7 @@ class C17(RailsProp):
                   "convs": [{"turns": [{"tok": "#c0t%d#" % i, "text": t} for i, t in enumerate(texts)]}], "lat_seed": 0, "lat_mode": "zero"}
         sc["hostile"] = "enumerate"
         sc["corpus_seed"] = d.randint(0, 1 << 30, "cseed")
-        sc["per_position"] = 4 if tier == "quick" else len(corpus.HOSTILE) + 4
+        sc["per_position"] = 3 if tier == "quick" else len(corpus.HOSTILE) + 4
         return sc
 
     def run_one(self, sc, fault, tr):
@@ -131,6 +136,16 @@ class C17(RailsProp):
                 out.violate("malformed-reply", "%s:%s" % (mode, task), "LLM reply %r (%s) at call %d (%s): reply message is %r" % (text[:80], name, pos, task, rec.raw), pin={"hostile": [list(fault)]})
             if evaluated and isinstance(rec.reply, str) and evaluated in rec.reply and evaluated not in base_replies:
                 out.violate("template-evaluated", "%s:%s:%s" % (mode, task, name), "LLM reply %r at call %d (%s) came back evaluated: %r" % (text, pos, task, rec.reply), pin={"hostile": [list(fault)]})
+            # generic form for texts with sentinels: Q7<syntax>Q8 came back as Q7<something without the syntax opener>Q8
+            if isinstance(rec.reply, str) and not any(v.oracle == "template-evaluated" for v in out.violations[-1:]):
+                m_in = SENTINEL_RE.search(text)
+                if m_in:
+                    opener = next((o for o in ("{{", "{%", "{$", "$", "{") if o in m_in.group(1)), None)
+                    for m_out in SENTINEL_RE.finditer(rec.reply):
+                        if opener and m_out.group(1) != m_in.group(1) and opener not in m_out.group(1) and m_out.group(0) not in base_replies:
+                            out.violate("template-evaluated", "%s:%s:%s" % (mode, task, name), "LLM reply %r at call %d (%s): its message text came back as %r - the %r syntax was evaluated/substituted: %r"
+                                        % (text, pos, task, m_out.group(0), opener, rec.reply), pin={"hostile": [list(fault)]})
+                            break
             if evaluated and isinstance(rec.reply, str) and text.strip().strip('"') in rec.reply:
                 out.probe("template_text_survived_literally")
         return task
@@ -162,7 +177,7 @@ class C17(RailsProp):
                 k = min(len(names), sc.get("per_position", 5))
                 pick = names if k >= len(names) else d.sample(names, k, "pick", p)
                 # the trouble-makers are always included
-                for must in ("empty", "jinja-expr"):
+                for must in ("empty", "jinja-expr", "shaped-steps-inline-jinja", d.choice(corpus.SHAPED, "shaped", p)):
                     if must not in pick:
                         pick.append(must)
                 for n in pick:
